@@ -152,7 +152,7 @@ def run(ck):
             if rng.random() < 0.7:
                 script.append(req(100 + k, rng.choice(list(READS)))[:])
         script.append(req(999, "documentSymbol"))
-        bursts.append("srv " + json.dumps({"dir": "%s/tmp/burst%d" % (core.BUILD, i), "disk": {}, "script": script, "timeout_ms": 15000}))
+        bursts.append("srv " + json.dumps({"dir": "%s/tmp/burst%d" % (core.BUILD, i), "disk": {}, "script": script, "timeout_ms": 15000, **({"caps": "full"} if i % 2 == 0 else {})}))
     # many requests in flight when an edit arrives: 6 to 24 requests of every kind sent back to back on a document that takes a
     # while to index, then an edit (or a never-seen document), then more requests; twice in a row
     huge = "class A;\n" + "".join("def h%d : A { int f = %d; }\n" % (j, j) for j in range(4000))
@@ -165,7 +165,7 @@ def run(ck):
                 script.append(req(rid, sorted(READS)[(j + i) % len(READS)]))
             script.append(["change", "a.td", huge + "// %d\n" % rnd] if (i + rnd) % 3 else ["open", "n%d.td" % rnd, huge])
         script.append(req(999, "documentSymbol"))
-        bursts.append("srv " + json.dumps({"dir": "%s/tmp/flight%d" % (core.BUILD, i), "disk": {}, "script": script, "timeout_ms": 40000}))
+        bursts.append("srv " + json.dumps({"dir": "%s/tmp/flight%d" % (core.BUILD, i), "disk": {}, "script": script, "timeout_ms": 40000, **({"caps": "full"} if i % 2 else {})}))
     br = core.impl(bursts, timeout=300, jobs=4, tag="b08")
     for b, r in zip(bursts, br):
         try:
